@@ -45,6 +45,32 @@ CHECKS = {
             "findings F04 (lazy wait cycle) and F05 (incomparable path delays) are excluded by narrow signatures that "
             "are re-derived per case (differential lazy on/off; reference delay model).",
             "DESIGN.md 4/C05"),
+    "C01": ("exploration",
+            "Hypothesis-generated scenarios x schedules under a controlled asyncio selector + deviation-bounded "
+            "exhaustive schedule enumeration; invariant over the global event history (history monitor with reference delays)",
+            "Generated scenarios (all connection kinds, nested/sibling groups, both transports, lazy/cache on/off) run "
+            "under random, adversarial and enumerated schedules; a monitor written from the documentation checks on "
+            "the global order of step() begins and get_data() returns that no consumer steps while a producer is in "
+            "flight or has a demanded step whose delayed output is due at or before it, and vice versa.",
+            "Scripted simulators; reference delays from the case's group tree; explored schedule bound only.",
+            "DESIGN.md 4/C01"),
+    "C02": ("exploration",
+            "Hypothesis-generated scenarios x schedules under a controlled asyncio selector; history monitor "
+            "(reference demand set) as oracle, cross-checked with world.execution_graph in debug runs",
+            "The monitor derives the demanded tiered times from observed replies and requires each step to be the "
+            "minimum outstanding demand, strictly increasing, inside [0, until), and no demand left at the end; "
+            "debug runs compare the labels with the documented execution graph.",
+            "'Demanded' as read by the monitor (DESIGN 2.3); runs aborted by C05-class failures are counted, not judged.",
+            "DESIGN.md 4/C02"),
+    "C03": ("exploration",
+            "Hypothesis-generated scenarios x schedules; reference reconstruction of every step's inputs from the "
+            "observed get_data replies (tokens identify producing steps)",
+            "At every step() the observed inputs are compared slot by slot with the inputs rebuilt from the replies "
+            "observed so far (persistent: most recent value due / initial data / None; events: each due value once). "
+            "Open findings F10 (initial data in the shared source cache), F11 (event connection with initial data "
+            "becomes memory) and F12 (integer-keyed buffers vs tiered time) are excluded by shape signatures.",
+            "Opaque JSON tokens; one connection per input slot; persistent attributes in every reply (DESIGN 2.3).",
+            "DESIGN.md 4/C03"),
 }
 
 NOT_YET = {}
